@@ -38,4 +38,12 @@ META = {
     design_ref='DESIGN.md 6/C09',
     note='The godoc of AddPublisherDecorators contradicts the tested behaviour; the spec follows the property statement (first added acts first).',
     technique='TLA+ spec of the registration state machine + TLC trace validation of enumerated registration programs run on the real Router'),
+ 'C12': dict(
+    text='Retry.tla is the call-level state machine of the middleware (attempt bound, back-off lower bound per retry with rational multiplier and randomization, '
+         'hook sequence, first success wins, last error kept, early exit only on context end / MaxElapsedTime); TLC explores it over an abstract time line with '
+         'invariants on the attempt history. The real middleware runs around a scripted handler over a grid of configurations and outcome scripts; attempt '
+         'start/end times, hook arguments, cancel instants and the result are validated by TLC against the same state machine',
+    design_ref='DESIGN.md 6/C12',
+    note='Timing rules are one-sided (lower bounds on waits, generous margins after context end); cenkalti/backoff is observed only through the waits and hook arguments.',
+    technique='TLA+ state machine of the retry loop + TLC trace validation of timed event traces from the real middleware'),
 }
